@@ -151,10 +151,48 @@ def check(run):
             run.discharged += 1
         else:
             run.add_violation('oracle:c12/unconfigured-name', 'Refresh must fail when a requested handle name is not configured; got: %s' % (go[:1]), ['family c12 (args: ghost)', 'case ' + gc[0]])
+        # the logger plugins that build their appenders themselves (Console, File, RollingFile with / without the .wf file, sync and async):
+        # raw writes through the handle must reach EVERY appender of the logger - both files of a separating rolling logger
+        import c05
+        kc = []
+        for kind in ('console', 'file', 'rolling', 'rollingsep', 'rollingasync', 'rollingsepasync', 'syncfile', 'asyncfile'):
+            for lay in (0, 1):
+                kc.append('%s %d Block %d %d 0' % (kind, lay, rng.choice([0, 0, 3]), rng.choice([1, 7, 40])))
+        common.write_lines(tmp + '/k', kc)
+        rc, li = common.run_impl('c05k', tmp + '/k', tmp + '/ki', timeout=1200)
+        ko = common.read_lines(tmp + '/ki')
+        run.obligations += 1
+        if rc != 0 or len(ko) != len(kc):
+            run.add_violation('harness-error', 'c05k (from C12) rc=%s %s' % (rc, li[-1000:]), [li[-2000:]], no_input=True)
+        else:
+            badk = [(c, o, c05.kinds_oracle(c, o)) for c, o in zip(kc, ko)]
+            badk = [b for b in badk if b[2] != 'ok']
+            for c, o, v in badk[:3]:
+                run.add_violation('oracle:c12/logger-plugins', 'raw writes through the handle of a logger plugin: ' + v, ['family c05k', 'case ' + c, 'impl ' + o[:1500], 'verdict ' + v])
+            if not badk:
+                run.discharged += 1
+            run.stream('c12/logger-plugins', len(kc), len(kc), False, 'Console / File / RollingFile (with and without .wf, sync and async) logger plugins and Logger / AsyncLogger on a file appender, with and without a logger layout: '
+                       'numbered raw writes (and a few events) through the handle, then Destroy; every raw write must be, once and in order, in every file of the logger (both files when the rolling logger separates)')
     finally:
         shutil.rmtree(tmp, ignore_errors=True)
     return 'see streams'
 
 
 def replay(run, path):
+    lines = common.read_lines(path)
+    if any(l.startswith('family c05k') for l in lines):
+        import c05
+        cases = [l[5:] for l in lines if l.startswith('case ')]
+        tmp = common.scratch_dir('c12r')
+        common.write_lines(tmp + '/c', cases)
+        common.run_impl('c05k', tmp + '/c', tmp + '/i')
+        rc = 0
+        for c, o in zip(cases, common.read_lines(tmp + '/i')):
+            v = c05.kinds_oracle(c, o)
+            print(c, '\n impl:', o[:300], '\n verdict:', v)
+            if v != 'ok':
+                rc = 1
+                print('VIOLATION property=C12 replay=' + path)
+        shutil.rmtree(tmp, ignore_errors=True)
+        return rc
     return common.simple_replay('C12', 'c12', path, keep_empty=False)
